@@ -85,6 +85,30 @@ def _lock_factory(s):
     return make
 
 
+def own_locks(sm, s):
+    """every lock the library creates is a scheduler lock: `threading` as seen by every loaded mako module (and names
+    imported from it) is answered by a forwarding proxy whose Lock / RLock make scheduler locks.  A real lock taken by a
+    parked thread would stall the baton scheduler instead of showing up as a blocked thread."""
+    import sys
+    import threading as _threading
+
+    def make_rlock():
+        s.yield_point("RLock.create")
+        return sched.SchedRLock(s)
+
+    fwd = seams.Forward(_threading, {"Lock": _lock_factory(s), "RLock": make_rlock})
+    for name, mod in list(sys.modules.items()):
+        if mod is None or not (name == "mako" or name.startswith("mako.")):
+            continue
+        d = vars(mod)
+        if d.get("threading") is _threading:
+            sm.set(mod, "threading", fwd)
+        if d.get("Lock") is _threading.Lock:
+            sm.set(mod, "Lock", fwd.Lock)
+        if d.get("RLock") is _threading.RLock:
+            sm.set(mod, "RLock", fwd.RLock)
+
+
 class World:
     """a fresh lookup over a fresh directory, with scheduler-aware seams"""
 
@@ -130,7 +154,7 @@ class World:
         # scheduler's lock (the harness does not touch the lookup's attributes)
         import threading as _threading
 
-        self.sm.set(mlookup, "threading", seams.Forward(_threading, {"Lock": _lock_factory(s), "RLock": _lock_factory(s)}))
+        own_locks(self.sm, s)
         self.lookup = mlookup.TemplateLookup(directories=[self.dir], collection_size=size)
         if not fine:
             self.lookup._collection = _ydict(s, self.lookup._collection, size, mutil)
@@ -437,7 +461,7 @@ class RenderWorld:
         self.files = []
         import threading as _threading
 
-        self.sm.set(mlookup, "threading", seams.Forward(_threading, {"Lock": _lock_factory(s), "RLock": _lock_factory(s)}))
+        own_locks(self.sm, s)
         if lru:
             # a bounded lookup over files (its template cache and its URI cache are both LRU caches of size 1:
             # every render evicts and reloads); same templates, same decoys
@@ -729,7 +753,7 @@ class ModNsWorld:
         self.mruntime = mruntime
         import threading as _threading
 
-        self.sm.set(mlookup, "threading", seams.Forward(_threading, {"Lock": _lock_factory(s), "RLock": _lock_factory(s)}))
+        own_locks(self.sm, s)
         self.lookup = mlookup.TemplateLookup()
         for i, t in enumerate(MODNS_TEXTS):
             self.lookup.put_string("/m%d.html" % i, t)
@@ -779,6 +803,85 @@ def run_modns(spec, prefix, record=False):
 
 
 # --------------------------------------------------------------------------
+# render-xcache harness: two templates linked by inheritance whose CACHED defs call a cached def of the other template,
+# in both directions (a per-template lock held while a section is created would be taken in opposite orders)
+
+XC_MAIN = """<%inherit file="xbase.html"/>\\
+<%def name="title()" cached="True" cache_key="t${x}">T${x}</%def>\\
+<%def name="side()" cached="True" cache_key="s${x}">side(${parent.links()})</%def>\\
+m:${side()}"""
+XC_BASE = """<%def name="links()" cached="True" cache_key="l${x}">L${x}</%def>\\
+<%def name="head()" cached="True" cache_key="h${x}">head(${self.title()})</%def>\\
+B[${self.head()}|${self.body()}]"""
+
+
+class XCacheWorld:
+    def __init__(self, s):
+        from mako import lookup as mlookup, cache as mcache
+
+        self.s = s
+        self.sm = seams.Seams()
+        if "c16dict" not in mcache._cache_plugins.impls:
+            mcache.register_plugin("c16dict", "mc.c16_cache", "DictCache")
+        import mc.c16_cache as cc
+
+        cc.STORE.clear()
+        del cc.CALLS[:]
+        cc.SCHED = s
+        self.cc = cc
+        own_locks(self.sm, s)
+        self.lookup = mlookup.TemplateLookup(cache_impl="c16dict")
+        self.lookup.put_string("/xbase.html", XC_BASE)
+        self.lookup.put_string("/xmain.html", XC_MAIN)
+
+    def close(self):
+        self.sm.restore()
+        self.cc.SCHED = None
+
+
+def xcache_solo():
+    if _PROC.get("pid") != os.getpid():
+        _PROC.clear()
+        _PROC["pid"] = os.getpid()
+    if "xsolo" not in _PROC:
+        out = []
+        for x in ("0", "1", "2"):
+            w = XCacheWorld(sched.Scheduler())
+            try:
+                out.append(w.lookup.get_template("/xmain.html").render(x=x))
+            finally:
+                w.close()
+        _PROC["xsolo"] = out
+    return _PROC["xsolo"]
+
+
+def run_xcache(spec, prefix, record=False):
+    name, nthreads, fine = spec
+    s = sched.Scheduler(prefix, record_trace=record, horizon=20000)
+    solos = xcache_solo()
+    w = XCacheWorld(s)
+    try:
+        t = w.lookup.get_template("/xmain.html")
+        for i in range(nthreads):
+            s.spawn((lambda x: (lambda: t.render(x=x)))(str(i)))
+        ex = s.run()
+        if ex.deadlock:
+            return ex, [("render-xcache:blocked-thread", "no thread is left blocked", "all threads finish", ex.deadlock)]
+        if ex.horizon:
+            return ex, [("render-xcache:horizon", "execution finishes within the step horizon", "finish", "horizon")]
+        bad = _results_ok(ex, nthreads)
+        if bad:
+            return ex, [("render-xcache:exception", "concurrent renders do not raise", "output", bad)]
+        v = []
+        for i in range(nthreads):
+            if ex.results[i][1] != solos[i]:
+                v.append(("render-xcache:crosstalk", "each render produces exactly its solo output", solos[i], ex.results[i][1]))
+        return ex, v
+    finally:
+        w.close()
+
+
+# --------------------------------------------------------------------------
 # running one schedule
 
 
@@ -816,6 +919,8 @@ def run_one(spec, prefix, record=False):
         return run_first_use(spec, prefix, record)
     if spec[0] == "module-ns":
         return run_modns(spec, prefix, record)
+    if spec[0] == "render-xcache":
+        return run_xcache(spec, prefix, record)
     return _run_one(spec, prefix, record)
 
 
@@ -910,6 +1015,7 @@ def specs(tier):
     out.append(("render", 2, False, None))
     out.append(("render", 2, True, 1))  # ~830 line-level points: bound 2 would be ~10^5 executions of 50 ms each
     out.append(("render-lru", 2, True, 1))  # bounded lookup: the unlocked LRU caches (templates, URIs) under concurrent renders
+    out.append(("render-xcache", 2, False, 2 if q else 3))  # cached defs of two templates calling each other in both directions
     out.append(("module-ns", 2, False, None))  # all interleavings of two first renders through a module namespace
     out.append(("module-ns", 3, False, 2 if q else 3))
     out.append(("first-use", 2, True, 1 if q else 2))  # freshly imported library per execution, every line of filters.py / util.py
